@@ -46,7 +46,8 @@ class C04(Check):
                    'members, values inside the resolution band, non-canonical base64 padding)',
                    'requests are attributed to driver calls by the handler task and the request/reply window']
     PROBES = ('c04.must-reject', 'c04.must-accept', 'c04.limit-reject', 'c04.veto-reject', 'c04.readonly',
-              'c04.constant', 'c04.unexported', 'c04.partial-struct', 'c04.command', 'c04.cache-untouched-checked')
+              'c04.constant', 'c04.unexported', 'c04.partial-struct', 'c04.command', 'c04.cache-untouched-checked',
+              'c04.limit-moved-by-driver', 'c04.limits-checked-at-driver')
 
     def gen_case(self, rng, tier):
         specs = [genmod.gen_module_spec(rng, f'm{i}', depth=rng.choice([1, 2, 2]), full=True)
@@ -100,7 +101,25 @@ class C04(Check):
         shape = {'p_switch': rng.choice([0.1, 0.3]), 'line_gaps': rng.choice([0, 0, 0, 12]),
                  'seg_bias': rng.choice([1.0, 0.7]), 'lat_bias': rng.choice([1.0, 0.7]),
                  'specs': specs, 'scripts': scripts, 'nclients': nclients, 'poll': poll}
-        return {'shape': shape, 'ops': ops}
+        # a driver side thread (e.g. a poller refreshing hardware resident limits) moves the dynamic limits through
+        # the write methods of the limit parameters while the clients send their requests
+        moves = []
+        limited = [(s, p) for s in specs for p in s['params']
+                   if p.get('limits') and p['di']['type'] in genmod.NUMERIC and not p.get('readonly') and p.get('write')]
+        if limited and rng.random() < 0.4:
+            s, p = rng.choice(limited)
+            post = rng.choice({'minmax': ['min', 'max'], 'min': ['min'], 'max': ['max'], 'limits': ['limits']}[p['limits']])
+            for _ in range(rng.randrange(2, 9)):
+                v1, v2 = dtgen.valid_wire(rng, p['di']), dtgen.valid_wire(rng, p['di'])
+                moves.append({'m': s['name'], 'p': p['name'], 'post': post, 'dt': rng.choice([0, 0, 0.001, 0.01]),
+                              'payload': sorted([v1, v2]) if post == 'limits' else v1})
+            # the clients aim at the parameter whose limits move
+            for op in ops:
+                if rng.random() < 0.5:
+                    op.update(kind='change', m=s['name'], name=expname(p['name']), payload=dtgen.valid_wire(rng, p['di']))
+                    op.pop('nodata', None)
+                    op.pop('limit', None)
+        return {'shape': shape, 'ops': ops, 'faults': moves}
 
     @staticmethod
     def _name(rng, spec, name, export):
@@ -136,7 +155,8 @@ class C04(Check):
         ctx['description'] = r[2].data if r else None
         first.close()
         reqs = ctx['requests'] = []
-        strict = shape['nclients'] == 1 and not shape['poll']
+        ctx['moves'] = case.get('faults') or []
+        strict = shape['nclients'] == 1 and not shape['poll'] and not ctx['moves']
 
         def client(cidx):
             cl = nodeworld.RawClient(world)
@@ -162,7 +182,25 @@ class C04(Check):
                 if rep is None:
                     break
             cl.close()
+        def mover():
+            for mv in case.get('faults') or ():
+                if mv['dt']:
+                    time.sleep(mv['dt'])
+                else:
+                    sim.yield_point()
+                modobj = node.srv.secnode.modules.get(mv['m']) if hasattr(node, 'srv') else None
+                if modobj is None:
+                    continue
+                pobj = modobj.parameters[f'{mv["p"]}_{mv["post"]}']
+                try:
+                    value = pobj.datatype.import_value(mv['payload'])
+                    getattr(modobj, f'write_{mv["p"]}_{mv["post"]}')(value)
+                    sim.count('c04.limit-moved-by-driver')
+                except Exception:   # noqa   (e.g. an inverted pair)
+                    pass
         ths = [threading.Thread(target=client, args=(i,), name=f'client{i}') for i in range(shape['nclients'])]
+        if case.get('faults'):
+            ths.append(threading.Thread(target=mover, name='mover'))
         for t in ths:
             t.start()
         for t in ths:
@@ -350,6 +388,26 @@ class C04(Check):
                     if v2 == dtgen.REJECT:
                         res.append(Violation('C04.invalid-reached-driver', 'lenient|' + di['type'],
                                              f'{what}: driver got {c.get("arg")!r}, not a value of {di}'))
+        # whatever reaches a write method must satisfy the limits in force at that moment (checks, limit changes
+        # through write methods and the driver call itself all happen under the access lock of the module)
+        for c in calls:
+            if c['kind'] != 'write' or not c.get('limits') or not c['task'].startswith('conn'):
+                continue
+            spec = specs.get(c['mod'])
+            pspec = next((q for q in spec['params'] if q['name'] == c['name']), None) if spec else None
+            if pspec is None or pspec['di']['type'] not in genmod.NUMERIC:
+                continue
+            try:
+                v = dtgen.to_internal(pspec['di'], c['arg'])
+            except Exception:   # noqa
+                continue
+            snap = c['limits']
+            lo, hi = snap['limits'] if 'limits' in snap else (snap.get('min', float('-inf')), snap.get('max', float('inf')))
+            bump('c04.limits-checked-at-driver')
+            if not lo <= v <= hi:
+                res.append(Violation('C04.outside-limits-at-driver', 'moved-by-driver' if ctx.get('moves') else 'wire',
+                                     f'write_{c["name"]}({c["arg"]!r}) of module {c["mod"]} was called while its limits '
+                                     f'were {snap}'))
         stray = [c for c in calls if c['seq'] not in claimed and c['task'].startswith('conn')]
         for c in stray[:1]:
             res.append(Violation('C04.unattributed-driver-call', c['kind'], f'driver call {c} belongs to no request'))
@@ -403,6 +461,9 @@ class C04(Check):
                 if op['name'] == expname(f'{pspec["name"]}_{post}') and post in snap:
                     val = other['reply'].data[0]
                     snap[post] = [dtgen.to_internal(di, x) for x in val] if post == 'limits' else dtgen.to_internal(di, val)
+        # a driver side thread moves these limits at its own pace: judged at the driver call instead
+        if any(mv['m'] == mname and mv['p'] == pspec['name'] for mv in ctx.get('moves') or ()):
+            return 'uncertain'
         # with several clients a limit change may overlap this request: then the limits are uncertain
         for other in ctx['requests']:
             op = other['op']
